@@ -427,7 +427,9 @@ def main():
     rep = common.Report(PID, "model_checking")
     rep.rule = ("one case = one template skeleton (statement shapes / array layouts with bare parameters / whole-array parameters x use) loaded, "
                 "instantiated with symbolic parameter values and compared with the reference run on the substituted text")
-    rep.bounds = {"parameters": "<=3 per template (+ whole arrays up to 3x2)", "arrays": "<=2x3", "coefficients inside parameter expressions": "concrete dyadic numbers (2, 3, 4, 0.5, 1.5, 1)"}
+    rep.bounds = {"parameters": "<=3 per template (+ whole arrays up to 3x2)", "arrays": "<=2x3", "coefficients inside parameter expressions": "concrete dyadic numbers (2, 3, 4, 0.5, 1.5, 1)",
+                  "array uses": "none / argument / keyword / index / inside a loop body; also with the parameter arrays replaced by Fortran-ordered copies",
+                  "symbolic expression shapes": "the C01 family over parameters (quick: every 9th; thorough: all)"}
     rep.assumptions = [
         "instantiated values are compared by value (kinds and array dtypes of instances are not compared: {a}*0 is the integer 0 in SymPy)",
         "parameter values are symbolic reals (float-tagged); floats are reals, so 'cancels catastrophically' is outside the model by construction",
